@@ -11,11 +11,14 @@ Open Scope Z_scope.
 
 Inductive pview := VIdle | VRun | VDone (r : result) (x : option (bool * bool)).
 
-Record tobs := { b_resolve : option cref; b_phase : pview }.
-Record obs := { o_table : list (Z * row) * Z; o_threads : list tobs }.
+Record tobs := { b_slot : option cref;       (* the raw thread-local slot of this thread *)
+                 b_resolve : option cref;    (* hub.getConnection() in this thread *)
+                 b_phase : pview }.
+Record obs := { o_table : list (Z * row) * Z; o_proc : option cref (* the raw process-level slot *); o_threads : list tobs }.
 
 Record case := {
-  c_thread_level : bool;                 (* every thread has its own thread connection / one process connection *)
+  c_slots : list (option nat);           (* per thread: the DBConnection bound as its threadConnection, if any *)
+  c_proc : option nat;                   (* the DBConnection bound as processConnection, if any *)
   c_table : list (Z * row) * Z;          (* rows and next id before the run *)
   c_bodies : list (list bstep);          (* one per thread *)
   c_broken : list (option Z);            (* per thread: the row id whose parent-side instance was left without attributes and with
@@ -39,11 +42,11 @@ Definition pview_eqb (a b : pview) : bool :=
   | _, _ => false
   end.
 Definition tobs_eqb (a b : tobs) : bool :=
-  option_eqb cref_eqb (b_resolve a) (b_resolve b) && pview_eqb (b_phase a) (b_phase b).
+  option_eqb cref_eqb (b_slot a) (b_slot b) && option_eqb cref_eqb (b_resolve a) (b_resolve b) && pview_eqb (b_phase a) (b_phase b).
 Definition tab_eqb (a b : list (Z * row) * Z) : bool :=
   list_eqb (fun x y => (fst x =? fst y) && list_eqb val_eqb (snd x) (snd y)) (fst a) (fst b) && (snd a =? snd b).
 Definition obs_eqb (a b : obs) : bool :=
-  tab_eqb (o_table a) (o_table b) && list_eqb tobs_eqb (o_threads a) (o_threads b).
+  tab_eqb (o_table a) (o_table b) && option_eqb cref_eqb (o_proc a) (o_proc b) && list_eqb tobs_eqb (o_threads a) (o_threads b).
 
 Definition view_phase (ph : phase) : pview :=
   match ph with
@@ -56,14 +59,16 @@ Fixpoint seq_from (n k : nat) : list nat := match k with O => [] | S k' => n :: 
 
 Definition observe (g : gst) : obs :=
   {| o_table := (t_rows (g_committed g), t_next (g_committed g));
-     o_threads := map (fun t => {| b_resolve := resolve g t; b_phase := view_phase (ts_phase (thread g t)) |})
+     o_proc := g_proc g;
+     o_threads := map (fun t => {| b_slot := ts_slot (thread g t); b_resolve := resolve g t;
+                                   b_phase := view_phase (ts_phase (thread g t)) |})
                       (seq_from 0 (length (g_threads g))) |}.
 
 Definition start (c : case) : gst :=
   {| g_committed := {| t_rows := fst (c_table c); t_next := snd (c_table c) |};
      g_lock := None;
-     g_proc := if c_thread_level c then None else Some (CDb 0);
-     g_threads := map (fun ib => {| ts_slot := if c_thread_level c then Some (CDb (fst ib)) else None;
+     g_proc := option_map CDb (c_proc c);
+     g_threads := map (fun ib => {| ts_slot := option_map CDb (nth (fst ib) (c_slots c) None);
                                    ts_phase := PIdle (snd ib) |})
                       (combine (seq_from 0 (length (c_bodies c))) (c_bodies c)) |}.
 
